@@ -171,7 +171,7 @@ func execClean(s *ev.Shard, b *sandbox.Box, c CleanCase) *rp.Fail {
 
 	projRel, _ := filepath.Rel(b.SB, b.Proj)
 	projRel = filepath.ToSlash(projRel)
-	entries, err := model.Walk(b.Proj)
+	entries, err := model.WalkNoFollow(b.Proj)
 	if err != nil {
 		return &rp.Fail{Sig: "harness", Msg: err.Error()}
 	}
